@@ -33,6 +33,9 @@ def check(chk, thorough=False):
     chk.run('C01.g', 'R-WHO', 'the active-transfer state of each direction is written only by its own setup / teardown / pump functions', lambda ob: c01g(tree, ob), floor=6)
     chk.run('C01.o', 'R-ESCAPE', 'no exception escapes the handlers of the receive callback: a KeyError / ValueError out of the acknowledgement handler ends reception, later bundles are never received (= C17.a)', lambda ob: __import__('sa.props.c17', fromlist=['c17a']).c17a(tree, ob), floor=6)
     chk.run('C01.p', 'R-GUARD', 'the TX step is scheduled whenever a bundle is queued, whatever the session state (the step itself waits for the session): a bundle queued while negotiating is sent once the session is up', lambda ob: __import__('sa.props.common', fromlist=['tx_trigger_whenever_nonempty']).tx_trigger_whenever_nonempty(tree, ob, 'tcpcl/session.py', 'ContactHandler._process_queue_trigger', 'self._tx_pend_start', 'self._process_queue', allowed=(('self._process_queue_pend is None', True), ('self._process_queue_pend is not None', False), ('self._process_queue_pend', False))), floor=1)
+    chk.run('C01.q', 'R-GUARD', 'a transfer in progress is finished although SESS_TERM went by: the segment / acknowledgement handlers never refuse because of the termination flags', lambda ob: __import__('sa.props.common', fromlist=['transfers_outlive_sess_term']).transfers_outlive_sess_term(tree, ob), floor=1)
+    chk.run('C01.r', 'R-WHO', 'bundles are queued for the application in the order they completed: an entry of the receive queue is made only when a transfer completes', lambda ob: __import__('sa.props.common', fromlist=['rx_map_inserted_on_completion_only']).rx_map_inserted_on_completion_only(tree, ob), floor=1)
+    chk.run('C01.s', 'R-CLAMP', 'the size a segment is read with is a whole number within the peer MRU on every write of it (a float size stalls the transfer in mid-bundle) (= C04.e)', lambda ob: __import__('sa.props.c04', fromlist=['c04e']).c04e(tree, ob), floor=2)
     chk.run('C01.h', 'R-SCHEMA', 'segment data and extension lengths are verified against what was read, also when empty (= C07.c)', lambda ob: _c07c(tree, ob), floor=6)
 
 
@@ -416,6 +419,11 @@ def _measure_idiom(ob, fv, rel, prefix, tail=None):
     st = one(tl, 'total_length assignment', ob)
     if pm(prefix + '.file.tell()', st.value) is None:
         ob.violate(rel, fv.qual, src(st), 'total length is not taken from the file position at end', st)
+        return
+    stale = [(t, p) for (t, p) in (fv.facts(st) or ()) if 'total_length' in t]
+    if stale:
+        ob.violate(rel, fv.qual, '{} only when {}{}'.format(src(st)[:50], '' if stale[0][1] else 'not ', stale[0][0]), 'the file is measured only if no length is on record: a length remembered from the time the bundle '
+                   'was queued is announced for a file that has changed since (START carries the wrong total length, END never comes)', st, sure=True)
         return
     seeks = [c for c in calls_in(func) if pm(prefix + '.file.seek(0, os.SEEK_END)', c) is not None or pm(prefix + '.file.seek(0, 2)', c) is not None]
     rewinds = [c for c in calls_in(func) if pm(prefix + '.file.seek(0)', c) is not None or pm(prefix + '.file.seek(0, 0)', c) is not None or pm(prefix + '.file.seek(0, os.SEEK_SET)', c) is not None]
